@@ -217,6 +217,25 @@ def lenient_zero(line):
         return False
 
 
+def ref_decode(raw):
+    """Independent strict decoder: the payload when `raw` starts with a well-formed chunked encoding (1*HEXDIG [;ext] CRLF data
+    CRLF ... 0 [;ext] CRLF), else None.  A damaged encoding may by coincidence be a well-formed encoding of another payload."""
+    import re as _re
+    pos, out = 0, b''
+    while True:
+        m = _re.compile(rb'([0-9A-Fa-f]+)(;[^\r\n]*)?\r\n').match(raw, pos)
+        if not m:
+            return None
+        n = int(m.group(1), 16)
+        pos = m.end()
+        if n == 0:
+            return out
+        if raw[pos + n:pos + n + 2] != b'\r\n' or len(raw) < pos + n + 2:
+            return None
+        out += raw[pos:pos + n]
+        pos += n + 2
+
+
 def size_lines(sizes, fmt, ext):
     """(start, end-before-CRLF, index) of every size line of the encoding, the zero-size line included"""
     out = []
@@ -428,6 +447,9 @@ def work(spec):
                 mode = 'must-reject' if pos in after_data else 'any'
                 extra = {'what': 'subst', 'pos': pos, 'byte': sb}
                 allowed = [payload]
+                other = ref_decode(mut)
+                if other is not None and other not in allowed:
+                    allowed.append(other)          # the damaged bytes happen to be a well-formed encoding of another payload
                 off = 0
                 for (ls, le, k), s in zip(size_lines(sizes, fmt, ext), list(sizes) + [0]):
                     if ls <= pos < le and lenient_zero(mut[ls:le]):
